@@ -23,7 +23,8 @@ RULES = {
     "wsgi_sse": "exhaustive (shortest first): every feasible schedule over {P producer step, C consume, c consume issued while nothing "
     "is available (consumer waits inside the response until the next producer step), X close, E producer raises, F producer finishes} up to length n against baize.wsgi.SendEventResponse with a gated generator, consumer thread and watchdog; "
     "a server-side close is appended when the schedule has none; non-trivial = a close/exception before the stream was consumed",
-    "wsgi_sse_ping": "the same with a 10 ms ping interval so that keep-alive comments interleave (C with nothing available returns a ping)",
+    "wsgi_sse_ping": "the same with a 10 ms ping interval so that keep-alive comments interleave (C with nothing available returns a ping), "
+    "plus schedules in which the consumer stalls for five ping intervals (S) while the producer is ahead",
     "wsgi_sse_long": "Hypothesis: schedules up to length 12",
     "wsgi_stream": "exhaustive: WSGI StreamResponse with producers of 0..4 items, raising/finishing at every step, closed by the server after every k items",
 }
@@ -399,7 +400,9 @@ def run(rec, only=None):
     rec.exhaustive["wsgi_stream"] = True
     core.drive_cases(rec, "wsgi_sse", ({"schedule": s} for s in wsched.enumerate_schedules(5 if quick else 7)), oracle_wsgi_sse)
     rec.exhaustive["wsgi_sse"] = True
-    core.drive_cases(rec, "wsgi_sse_ping", ({"schedule": s, "ping": True} for s in wsched.enumerate_schedules(3 if quick else 4, True)), oracle_wsgi_sse)
+    stalls = ["PPSCCFC", "PPSCFCC", "PSCPPSCCFC", "PPSCCX", "PPSX", "cPPSCFC", "PPSCPSCFCC", "PSPSCCFC", "PPCSCFC", "SPPSCCFC"]
+    ping_scheds = list(wsched.enumerate_schedules(3 if quick else 4, True)) + [s for s in stalls if wsched.feasible(s, True)]
+    core.drive_cases(rec, "wsgi_sse_ping", ({"schedule": s, "ping": True} for s in ping_scheds), oracle_wsgi_sse)
     rec.exhaustive["wsgi_sse_ping"] = True
     grid = list(asgi_grid())
     core.drive_cases(rec, "asgi_grid", grid, oracle_asgi)
